@@ -2,11 +2,9 @@
 
 KANI_BOUNDS = {
     "kb_vec_target_ops": "vector length <= 3, spare capacity <= 4, operand <= 3, one operation (plus follow-up writes into the reservation)",
-    "kb_decode_string_any_bytes": "every byte string of length <= 5",
     "kb_decode_vec_u8_any_bytes": "every byte string of length <= 5",
-    "kb_skip_tagged_any_bytes": "every byte string of length <= 6",
     "kb_vec_u16_roundtrip": "sequences of <= 2 u16 elements",
-    "kb_dict_roundtrip": "BTreeMap<u8,u8> with <= 2 entries; 5-byte duplicate-key payload",
+    "kb_dict_roundtrip_1": "BTreeMap<u8,u8> with exactly 1 entry (encode only)",
     "kb_slice_target_ops": "capacity <= 6, operand length <= 4, one operation from an arbitrary reachable state",
     "kb_slice_source_ops": "buffer length <= 6, request <= 4, one operation from an arbitrary reachable state",
 }
@@ -29,6 +27,19 @@ CODEC_TRUSTED = [
 ]
 
 PROPS = {
+    "C03": dict(
+        units=["ast_lookup", "ast_node"],
+        claim="Ast::find_node_with_scope (real text) returns exactly the entity the scoping rules designate - innermost enclosing scope "
+              "outwards, global scope last, a leading '::' looked up globally only - or an error; the lookup table's representation invariant "
+              "(every index designates an element) is preserved by add_named_element, which makes the element retrievable under its fully scoped "
+              "name; the 46 TryFrom<&Node> conversions succeed exactly for the matching kind (for type references: exactly the eight kinds that are types).",
+        trusted=["table_key_facts: String/str Borrow+Hash+Eq agreement for HashMap<String,usize> lookups; Strings are determined by their characters",
+                 "R12 regions in find_node_with_scope: strip_prefix(\"::\"), scope.split(\"::\").collect() (segments: uninterpreted scope_segments), scopes.join(\"::\") + \"::\" + id (= candidate_name)",
+                 "Ast::find_node: ASSUMED contract (closure passed to Option::map needs a closure-level requires)", "Ast::create (vec!/HashMap::from literals) establishes wf: not extracted",
+                 "OwnedPtr/WeakPtr (ptr_util), NamedSymbol::parser_scoped_identifier accessor, ccase!/to_string message text, downgrade_as! pointer upcast"],
+        not_claimed=["TypeRefPatcher (compute_patches / resolve_definition / alias flattening / attribute accumulation / WHICH scope string is passed): closures, dyn, unsafe mutation - outside this technique",
+                     "Scope::push_scope/pop_scope (byte-index String surgery + cfg(debug_assertions) closures)"],
+    ),
     "C06": dict(
         units=["preproc"],
         claim="Term::evaluate, Expression::evaluate, Conditional::evaluate and process_nodes (slicec/src/parsers/preprocessor/grammar.rs, "
@@ -79,7 +90,7 @@ PROPS = {
     "C10": dict(
         units=["codec_wire", "wire_lemmas"],
         kani_quick=K_VARINT + K_FIXED,
-        kani_thorough=["kb_dict_roundtrip", "kb_vec_u16_roundtrip"],
+        kani_thorough=["kb_vec_u16_roundtrip"],
         claim="Every EncodeInto / DecodeFrom implementation of slice-codec for bool, fixed-width numbers, floats, "
               "variable-width integers, sizes, strings and sequences is under contract against the wire-format spec "
               "(specs/wire.rs, written from the property): encoders append exactly enc(value); decoders accept only "
@@ -93,7 +104,7 @@ PROPS = {
         units=["codec_wire", "codec_buffer", "codec_error"],
         kani_quick=["k_decode_varuint_u32_any_bytes", "k_decode_varuint_u64_any_bytes", "k_decode_varuint_usize_any_bytes",
                     "k_decode_varuint_i32_any_bytes", "k_decode_varint_i32_any_bytes", "k_decode_varint_i64_any_bytes", "k_bool_contract"],
-        kani_thorough=["kb_decode_string_any_bytes", "kb_decode_vec_u8_any_bytes", "kb_skip_tagged_any_bytes", "kb_dict_roundtrip"],
+        kani_thorough=["kb_decode_vec_u8_any_bytes"],
         claim="Every decode function is verified with no precondition other than the source's representation invariant, "
               "so for ALL byte strings: data unchanged, cursor moves forward inside the buffer (no over-read: every "
               "indexing/copy obligation proved), no reachable panic, strict bool/UTF-8/range/duplicate-key rejection, "
@@ -128,6 +139,10 @@ NOT_APPLICABLE = {
 }
 
 MANIFEST_TEXT = {
+    "C03": dict(
+        level="Proof (Verus) of the LOOKUP DISCIPLINE only: find_node_with_scope == resolve (spec written from the property: innermost scope outwards, global last, '::' prefix global only) for all tables/scopes/names; add_named_element preserves the table invariant, writes exactly one entry (whole-table postcondition) and makes the element retrievable by its scoped name; 46 Node conversions: Ok <=> the node has the requested kind. The patcher that decides WHICH name/scope is looked up, alias flattening and attribute carrying are trusted.",
+        design_ref="DESIGN.md section 7, C03", technique="Verus contracts on extracted real functions; loop invariant against a recursive spec; representation invariant; macro-expanded impls under a generated contract family",
+        note="Partial claim (stated): lookup discipline and kind checks, not the TypeRefPatcher. Assumed: string-key map axioms, split/join/strip_prefix regions, find_node's closure, pointer shims."),
     "C19": dict(
         level="Proof (Verus, every input string): plugin_parser's real text - state machine over a peekable char iterator with a re-targeted &mut String buffer - is verified against spec_parse (split at unescaped ',', path may contain '=', first unescaped '=' splits key/value, a second one is an error, backslash escapes only ',' and '=', one trailing comma ignored, components trimmed, empty path/key rejected): r is Ok ==> result == spec, r is Err ==> spec rejects; no panic (the pinned tree's assert on the empty string was a defect, repaired); termination.",
         design_ref="DESIGN.md section 7, C19", technique="Verus loop invariant with ghost specification state stepped in lock-step; prophecy variables for the live re-targeted borrow",
